@@ -16,7 +16,7 @@ RULE = (
     "jit(update_state), vmap(update_state) on the same LieselInterface object, interleaved with mutations "
     "of the user's model and with construction of further interfaces while the user's model has pending updates; "
     "programs with user-supplied log_prob nodes; generated statistical models judged against the scipy oracle; keys "
-    "that are both a node name and another variable's name; plus Dict/Dataclass/NamedTuple interface law histories. Also: interfaces built from models with auto-update off; out-of-support positions (NaN log-prob) and float positions into int-initialised variables; a dataclass state with an init=False field and a normalising __post_init__; NumPy-valued models driven eagerly with NumPy positions. non-trivial = history "
+    "that are both a node name and another variable's name; plus Dict/Dataclass/NamedTuple interface law histories. Also: interfaces built from models with auto-update off; out-of-support positions (NaN log-prob) and float positions into int-initialised variables; a dataclass state with an init=False field and a normalising __post_init__; NumPy-valued models driven eagerly with NumPy positions. Round 5: calls that cannot succeed (wrong-shaped position, unknown key) between valid calls. non-trivial = history "
     "with >= 2 calls on the same (position,state) separated by other calls, and a jit and a vmap call; "
     "distinct by (program, history) hash"
 )
